@@ -161,6 +161,7 @@ pub fn base_plan(inst: Inst, mode: &str, rng: &mut Rng, reports: usize) -> PlanA
         choices: Vec::new(),
         agg: gen_agg_plan(rng, n, reports, false),
         skew: None,
+        skew2: None,
         timeouts: false,
         store_faults: Vec::new(),
         storage: Vec::new(),
@@ -447,80 +448,14 @@ fn gen_plan(id: &str, seed: u64, _run: u64, tier: Tier) -> PlanA {
                 ap.dedup();
                 p.aps = vec![ap];
             }
-            let what = *rng.pick(&["ctx", "vk", "nonce", "nonce", "id", "id"]);
-            let all = rng.chance(1, 2);
-            let who = if all { Vec::new() } else { vec![rng.below(n as u64) as u8] };
-            let value = match what {
-                "ctx" => {
-                    // a different context: flip, extend, truncate or replace
-                    let mut c = p.ctx.0.clone();
-                    match rng.below(4) {
-                        0 if !c.is_empty() => {
-                            let i = rng.usize_below(c.len());
-                            c[i] ^= 1 << rng.below(8);
-                        }
-                        1 => c.push(rng.below(256) as u8),
-                        2 if !c.is_empty() => {
-                            c.pop();
-                        }
-                        _ => {
-                            let l = 1 + rng.usize_below(8);
-                            c = rng.bytes(l);
-                            if c == p.ctx.0 {
-                                c.push(1);
-                            }
-                        }
-                    }
-                    c
-                }
-                "id" => Vec::new(),
-                _ => {
-                    // xor mask, non-zero
-                    let len = if what == "vk" { 32 } else { 16 };
-                    let mut m = vec![0u8; len];
-                    if rng.chance(1, 2) {
-                        m[rng.usize_below(len)] = 1 << rng.below(8);
-                    } else {
-                        m = rng.bytes(len);
-                        m[0] |= 1;
-                    }
-                    m
-                }
-            };
-            let mut ids: Vec<u8> = (0..n).collect();
-            if what == "id" {
-                match rng.below(3) {
-                    0 => {
-                        // two aggregators swap identifiers
-                        let a = rng.usize_below(n as usize);
-                        let b = (a + 1 + rng.usize_below(n as usize - 1)) % n as usize;
-                        ids.swap(a, b);
-                    }
-                    1 => {
-                        // one aggregator takes another's identifier
-                        let a = rng.usize_below(n as usize);
-                        let b = (a + 1 + rng.usize_below(n as usize - 1)) % n as usize;
-                        ids[a] = b as u8;
-                    }
-                    _ => {
-                        // rotate everybody
-                        ids.rotate_left(1);
-                    }
-                }
+            let prio3 = p.inst.is_prio3();
+            let first = gen_skew(rng, &p, n, prio3, "");
+            // combined mismatches: a second, simultaneous skew of another kind
+            if rng.chance(1, 4) {
+                let second = gen_skew(rng, &p, n, prio3, &first.what);
+                p.skew2 = Some(second);
             }
-            let mut id_offset = 0u64;
-            let mut object_level = false;
-            if what == "id" {
-                object_level = rng.chance(1, 3);
-                if rng.chance(1, 4) {
-                    // identifiers that agree with the true ones in the low byte only
-                    id_offset = *rng.pick(&[256u64, 512, 65_536, 1 << 32]);
-                    if rng.chance(1, 2) {
-                        ids = (0..n).collect();
-                    }
-                }
-            }
-            p.skew = Some(Skew { what: what.to_string(), who, value: Hx(value), ids, id_offset, object_level });
+            p.skew = Some(first);
             p
         }
         _ => unreachable!(),
@@ -580,8 +515,23 @@ impl<'a> Visitor for ExecVis<'a> {
                 ctx.probe("bound_2k");
             }
         }
+        // algorithm-identifier skew: the named aggregators run the same instance under another identifier
+        let alt_owned: Option<V> = match plan.skew.iter().chain(plan.skew2.iter()).find(|s| s.what == "alg") {
+            Some(s) => {
+                let mut x = [0u8; 4];
+                for (a, b) in x.iter_mut().zip(s.value.0.iter()) {
+                    *a = *b;
+                }
+                match ad.alt_algorithm(vdaf, u32::from_be_bytes(x)) {
+                    Some(a) => Some(a),
+                    None => return Err("algorithm-identifier skew on an instance class that has no alternative instance".into()),
+                }
+            }
+            None => None,
+        };
+        let alt = alt_owned.as_ref();
         let pass = match World::<V, A, VK>::new(vdaf, ad, plan, &mut ctx, &plan.vk.0) {
-            Ok(w) => w.run(),
+            Ok(w) => w.with_alt(alt).run(),
             Err(e) if e == "VIOLATION-RECORDED" => return Ok(ctx.finish()),
             Err(e) => return Err(e),
         };
@@ -599,7 +549,7 @@ impl<'a> Visitor for ExecVis<'a> {
         }
         let rerun = |key: &[u8], counters: &mut Counters| -> Result<PassOut, String> {
             let mut c2 = Ctx::new(counters, &[]);
-            Ok(World::<V, A, VK>::new(vdaf, ad, plan, &mut c2, key)?.run())
+            Ok(World::<V, A, VK>::new(vdaf, ad, plan, &mut c2, key)?.with_alt(alt).run())
         };
         // stub fidelity: a valid encoding sharded through the Evil seam gives the honest bytes
         for (i, rep) in plan.reports.iter().enumerate() {
@@ -833,38 +783,139 @@ fn judge_robust<V: prio::vdaf::Vdaf, A: Adapter<V>>(plan: &PlanA, pass: &PassOut
     Ok(())
 }
 
-fn judge_skew<V: SimVdaf<VK>, A: Adapter<V>, const VK: usize>(plan: &PlanA, pass: &PassOut, ctx: &mut Ctx, rerun: &dyn Fn(&[u8], &mut Counters) -> Result<PassOut, String>, vdaf: &V, ad: &A) -> Result<(), String> {
-    let Some(skew) = &plan.skew else { return Ok(()) };
-    ctx.fault(&format!("skew.{}{}", skew.what, if skew.who.is_empty() { ".all" } else { ".one" }));
-    let jr = plan.inst.has_joint_rand();
-    // the stated exception: the same substituted nonce at all aggregators, type without joint randomness
-    let exception = skew.what == "nonce" && skew.who.is_empty() && !jr && plan.inst.is_prio3();
-    // a consistent substitution of ctx / vk at ALL aggregators: the vk is the aggregators' own secret
-    // (the client never sees it), so "all use a different vk" is no mismatch at all
-    if skew.what == "vk" && skew.who.is_empty() {
-        ctx.counters.inc("skew.vk_all_is_no_mismatch");
-        for ((rep, ap), v) in &pass.jobs {
-            if !all_finished(v) {
-                ctx.fail(Violation::new("C18.consistent_key", "skew|vk_all", format!("report {rep}/{ap} rejected although all aggregators share one verification key")));
+/// One configuration mismatch (C18): what, at whom, and the substituted value.
+fn gen_skew(rng: &mut Rng, p: &PlanA, n: u8, prio3: bool, not_what: &str) -> Skew {
+    let what = loop {
+        let w = *rng.pick(&["ctx", "vk", "nonce", "nonce", "id", "id", "alg"]);
+        if w == not_what || (w == "alg" && !prio3) {
+            continue;
+        }
+        break w;
+    };
+    let all = rng.chance(1, 2);
+    let who = if all { Vec::new() } else { vec![rng.below(n as u64) as u8] };
+    let value = match what {
+        "ctx" => {
+            // a different context: flip, extend, truncate or replace
+            let mut c = p.ctx.0.clone();
+            match rng.below(4) {
+                0 if !c.is_empty() => {
+                    let i = rng.usize_below(c.len());
+                    c[i] ^= 1 << rng.below(8);
+                }
+                1 => c.push(rng.below(256) as u8),
+                2 if !c.is_empty() => {
+                    c.pop();
+                }
+                _ => {
+                    let l = 1 + rng.usize_below(8);
+                    c = rng.bytes(l);
+                    if c == p.ctx.0 {
+                        c.push(1);
+                    }
+                }
+            }
+            c
+        }
+        "id" => Vec::new(),
+        "alg" => {
+            // xor mask of the 32-bit algorithm identifier: one bit (any byte), or anything non-zero
+            let m: u32 = if rng.chance(1, 2) { 1 << rng.below(32) } else { rng.u32() | 1 };
+            m.to_be_bytes().to_vec()
+        }
+        _ => {
+            // xor mask, non-zero
+            let len = if what == "vk" { p.vk.0.len() } else { 16 };
+            let mut m = vec![0u8; len];
+            if rng.chance(1, 2) {
+                m[rng.usize_below(len)] = 1 << rng.below(8);
+            } else {
+                m = rng.bytes(len);
+                m[0] |= 1;
+            }
+            m
+        }
+    };
+    let mut ids: Vec<u8> = (0..n).collect();
+    if what == "id" {
+        match rng.below(3) {
+            0 => {
+                // two aggregators swap identifiers
+                let a = rng.usize_below(n as usize);
+                let b = (a + 1 + rng.usize_below(n as usize - 1)) % n as usize;
+                ids.swap(a, b);
+            }
+            1 => {
+                // one aggregator takes another's identifier
+                let a = rng.usize_below(n as usize);
+                let b = (a + 1 + rng.usize_below(n as usize - 1)) % n as usize;
+                ids[a] = b as u8;
+            }
+            _ => {
+                // rotate everybody
+                ids.rotate_left(1);
             }
         }
+    }
+    let mut id_offset = 0u64;
+    let mut object_level = false;
+    if what == "id" {
+        object_level = rng.chance(1, 3);
+        if rng.chance(1, 4) {
+            // identifiers that agree with the true ones in the low byte only
+            id_offset = *rng.pick(&[256u64, 512, 65_536, 1 << 32]);
+            if rng.chance(1, 2) {
+                ids = (0..n).collect();
+            }
+        }
+    }
+    Skew { what: what.to_string(), who, value: Hx(value), ids, id_offset, object_level }
+}
+
+fn judge_skew<V: SimVdaf<VK>, A: Adapter<V>, const VK: usize>(plan: &PlanA, pass: &PassOut, ctx: &mut Ctx, rerun: &dyn Fn(&[u8], &mut Counters) -> Result<PassOut, String>, vdaf: &V, ad: &A) -> Result<(), String> {
+    let skews: Vec<&Skew> = plan.skew.iter().chain(plan.skew2.iter()).collect();
+    if skews.is_empty() {
         return Ok(());
     }
-    if exception {
-        ctx.probe("nonce_exception_checked");
+    if skews.len() > 1 {
+        ctx.probe("combined_mismatch");
+    }
+    let jr = plan.inst.has_joint_rand();
+    // components that are no mismatch by the property's own wording:
+    //  * the stated exception: the same substituted nonce at all aggregators, Prio3 type without joint randomness
+    //  * the same substituted verification key at ALL aggregators: the key is the aggregators' own secret
+    //    (the client never sees it), so "all use another key" is no mismatch at all
+    let inert = |s: &Skew| (s.what == "nonce" && s.who.is_empty() && !jr && plan.inst.is_prio3()) || (s.what == "vk" && s.who.is_empty());
+    for s in &skews {
+        ctx.fault(&format!("skew.{}{}", s.what, if s.who.is_empty() { ".all" } else { ".one" }));
+    }
+    let describe = || skews.iter().map(|s| format!("{} (who={:?}, ids={:?})", s.what, s.who, s.ids)).collect::<Vec<_>>().join(" + ");
+    if skews.iter().all(|s| inert(s)) {
+        if skews.iter().any(|s| s.what == "nonce") {
+            ctx.probe("nonce_exception_checked");
+        }
+        if skews.iter().any(|s| s.what == "vk") {
+            ctx.counters.inc("skew.vk_all_is_no_mismatch");
+        }
         // must finish with output shares identical to the unskewed run
         let mut unskewed = plan.clone();
         unskewed.skew = None;
+        unskewed.skew2 = None;
         let mut scratch = Counters::default();
         let mut c2 = Ctx::new(&mut scratch, &[]);
         let base = World::<V, A, VK>::new(vdaf, ad, &unskewed, &mut c2, &plan.vk.0)?.run();
+        let only_vk = skews.iter().all(|s| s.what == "vk");
         for ((rep, ap), v) in &pass.jobs {
             if !all_finished(v) {
-                ctx.fail(Violation::new("C18.exception", "skew|nonce_exception_rejected", format!("nonce substituted consistently at all aggregators, type without joint randomness: report {rep} rejected")));
+                if only_vk {
+                    ctx.fail(Violation::new("C18.consistent_key", "skew|vk_all", format!("report {rep}/{ap} rejected although all aggregators share one verification key")));
+                } else {
+                    ctx.fail(Violation::new("C18.exception", "skew|nonce_exception_rejected", format!("nonce substituted consistently at all aggregators, type without joint randomness: report {rep} rejected")));
+                }
                 return Ok(());
             }
             if base.jobs.get(&(*rep, *ap)) != Some(v) {
-                ctx.fail(Violation::new("C18.exception", "skew|nonce_exception_outputs", format!("consistently substituted nonce changed the output shares of report {rep}")));
+                ctx.fail(Violation::new("C18.exception", "skew|nonce_exception_outputs", format!("a consistently substituted {} changed the output shares of report {rep}", describe())));
                 return Ok(());
             }
         }
@@ -889,10 +940,11 @@ fn judge_skew<V: SimVdaf<VK>, A: Adapter<V>, const VK: usize>(plan: &PlanA, pass
         ctx.probe("soundness_coincidence_not_confirmed");
         return Ok(());
     }
+    let what = skews.iter().filter(|s| !inert(s)).map(|s| s.what.as_str()).collect::<Vec<_>>().join("+");
     ctx.fail(Violation::new(
         "C18.binding",
-        format!("C18.binding|{}|{}", skew.what, if jr { "jr" } else { "nojr" }),
-        format!("verification completed at all aggregators despite a {} mismatch (who={:?}, ids={:?}) for report {}", skew.what, skew.who, skew.ids, cands[0].0),
+        format!("C18.binding|{}|{}", what, if jr { "jr" } else { "nojr" }),
+        format!("verification completed at all aggregators despite a mismatch of {} for report {}", describe(), cands[0].0),
     ));
     Ok(())
 }
@@ -976,7 +1028,7 @@ impl Check for CheckA {
             "C03" => "seeded Poplar1 runs (bits 1..256, rare deep instances up to 2^16) over the simulated transport: batches with planted heavy hitters, admissible histories of 1..4 aggregation parameters on the same stored reports, both rounds through the wire, crash/restart between rounds, absorbed duplicates; prefix counts vs brute force; iterative heavy-hitters vs brute force; distinct as C01".into(),
             "C04" => "Poplar1 world-A runs (bits 1..64, 1..3 reports, 1..2 aggregation parameters) with either a Byzantine client built by rewriting an honest report on the wire before fan-out (on-path value re-programmed to beta in {0,1,2,-1,random} with a consistent or inconsistent authenticator; seed / control-bit correction words mutated; A/B shares altered; IDPF key or correlated-randomness seed bytes flipped) and LABELLED by re-evaluating both keys over the candidates with the library's own Idpf::eval, or 1..3 in-flight alterations of public share, input shares, round-one / round-two sketch shares and sketch messages (plus drop / extra / spliced shares); robust (zero or one-hot 0/1), must-reject (label) and strict (single alteration where the sketch algebra guarantees it) oracles with 3-key confirmation; distinct as C02".into(),
             "C13" => "fault-free world-A runs with 2..8 reports; per aggregator a seeded partition into batches, accumulate order, merge tree, identity merges; bytes compared with single-pass aggregate; wrong-length refusals; distinct as C01".into(),
-            "C18" => "configuration skew drawn at world creation: ctx / verify key / nonce at one or all aggregators, identifier swap/steal/rotation; oracle: some aggregator fails (3-key confirmation) or the stated exception finishes with unchanged outputs".into(),
+            "C18" => "configuration skew drawn at world creation: ctx / verify key / nonce / algorithm identifier (Prio3: the named aggregators run the same type under another 32-bit identifier) at one or all aggregators, identifier swap/steal/rotation incl. identifiers that agree only in the low byte and object-level skew; a quarter of the runs combine two mismatches of different kinds; oracle: some aggregator fails (3-key confirmation), or — when every component is the stated nonce exception or a key shared by all aggregators — verification finishes with output shares identical to the unskewed run".into(),
             _ => String::new(),
         }
     }
@@ -1128,7 +1180,16 @@ pub fn shrink_plan_a(p: &PlanA) -> Vec<PlanA> {
         q.inst.proofs = 1;
         out.push(q);
     }
-    if p.ctx.0.len() > 1 {
+    if p.skew2.is_some() {
+        // a combined mismatch: try either component alone
+        let mut q = p.clone();
+        q.skew2 = None;
+        out.push(q);
+        let mut q = p.clone();
+        q.skew = q.skew2.take();
+        out.push(q);
+    }
+    if p.ctx.0.len() > 1 && !p.skew.iter().chain(p.skew2.iter()).any(|s| s.what == "ctx") {
         let mut q = p.clone();
         q.ctx = Hx(vec![1]);
         out.push(q);
